@@ -98,7 +98,7 @@ def _run_verus_cached(path, text, seed, rlimit, tag):
             return r
         except Exception:
             pass
-    r = run_verus(path, seed=seed, rlimit=rlimit)
+    r = run_verus(path, seed=seed, rlimit=rlimit, multiple_errors=(1 if tag == 'canary' else 20))
     r.cached = False
     try:
         json.dump(r.__dict__, open(cpath, 'w'))
